@@ -81,9 +81,28 @@ def prop(spec, rec):
         sched2 = sc.make_scheduler(spec)
         if spec.get("probing_scheduler"):
             sched2.post = probe_copies
-        h.sim.update_scheduler(sched2)
-        h.scheduler = sched2
-        sc.run_sim(h)
+        if spec.get("swap_via_json"):
+            # ... and the run is continued on a simulator restored from a checkpoint: the ledger is
+            # then read from the restored objects (sessions as the restored simulator reports them)
+            import warnings
+
+            from acnportal.acnsim import Simulator
+
+            with warnings.catch_warnings():
+                warnings.simplefilter("ignore")
+                restored, _ = sc.json_roundtrip(h.sim, Simulator, spec.get("swap_via_json"))
+            feed = h.feed
+            restored.update_scheduler(sched2)
+            h = sc.Handle(spec, restored, restored.network, restored.ev_history, sched2)
+            h.feed = feed
+            sc.run_sim(h)
+            # sessions that had not arrived at the checkpoint are reported once they have
+            require(sorted(restored.ev_history) == sorted(m.sessions), "restored_run_reports_every_session", lambda: "sessions reported after a restored run: %r" % sorted(restored.ev_history))
+            h.evs = dict(restored.ev_history)
+        else:
+            h.sim.update_scheduler(sched2)
+            h.scheduler = sched2
+            sc.run_sim(h)
         require(h.sim.iteration == m.end and h.sim.event_queue.empty(), "run_completes_after_scheduler_swap", lambda: "iteration %r, model end %r" % (h.sim.iteration, m.end))
     sim = h.sim
     R, P = sim.charging_rates, sim.pilot_signals
@@ -130,6 +149,8 @@ def prop(spec, rec):
     require(close(total, math.fsum(ev.energy_delivered for ev in h.evs.values()), ab=1e-10), "total_energy_is_sum_over_sessions", "total differs from the sum over sessions")
     if spec.get("probing_scheduler"):
         labels.add("scheduler_charges_its_ev_copies")
+    if swap is not None and spec.get("swap_via_json"):
+        labels.add("continued_from_a_json_checkpoint")
     if swap is not None:
         labels.add("scheduler_swapped_mid_run")
         if swap >= 1 and float(agg[:swap].max()) > float(agg[swap:].max() if agg[swap:].size else 0.0):
@@ -195,7 +216,7 @@ def subchecks(tier):
             prop,
             quick=400,
             thorough=30000,
-            floors={"multi_period_charging": 0.236, "pilot_on_vacant_station": 0.164, "noisy_battery_charged": 0.1, "battery_filled": 0.077, "mixed_voltage": 0.3, "fractional_period": 0.05, "scheduler_swapped_mid_run": 0.15, "peak_before_swap": 0.03},
+            floors={"multi_period_charging": 0.236, "pilot_on_vacant_station": 0.164, "noisy_battery_charged": 0.1, "battery_filled": 0.077, "mixed_voltage": 0.3, "fractional_period": 0.05, "scheduler_swapped_mid_run": 0.15, "peak_before_swap": 0.03, "continued_from_a_json_checkpoint": 0.05},
             min_nontrivial=20,
         ),
         Given("ledger_replug", replug_cases(), prop_replug, quick=800, thorough=60000, floors={"ev_object_used_again": 0.185, "reset_between_sessions": 0.185}, jobs_quick=2),
@@ -209,6 +230,7 @@ def ledger_cases(draw):
     spec["probing_scheduler"] = draw(st.booleans())
     if draw(st.integers(0, 2)) == 0:
         spec["swap_scheduler_at"] = draw(st.sampled_from(sc.Model(spec).invocations))
+        spec["swap_via_json"] = draw(st.sampled_from([None, None, "string", "path", "buffer"]))
     return spec
 
 
